@@ -62,6 +62,15 @@ def chain_rule(ctx, rule):
                     return i, bi
             return None, None
         ic, bc = pos(("copy_from_slice",))
+        clear_extend = False
+        if ic is None:
+            # the other whole overwrite: clear(); extend_from_slice(x)
+            icl, bcl = pos(("clear",))
+            iex, bex = pos(("extend_from_slice",))
+            if icl is not None and iex is not None and icl < iex and cfg.dominates(bcl, bex) and \
+                    not [m for _, m in order[icl + 1:iex]]:
+                ic, bc = iex, bex
+                clear_extend = True
         is_, bs = pos(("sort",))
         idd, bd = pos(("dedup",))
         good = None not in (ic, is_, idd) and ic < is_ < idd and all(
@@ -75,6 +84,9 @@ def chain_rule(ctx, rule):
         if "resize" in srcs and "copy" in srcs:
             r = srcs["resize"]
             same_src = r[0] == "call" and r[1].endswith("::len") and S.strip_refs(r[2][0]) == srcs["copy"]
+            inputs[name] = srcs["copy"]
+        elif clear_extend and "copy" in srcs:
+            same_src = True
             inputs[name] = srcs["copy"]
         if good and same_src:
             ctx.ok(rule, k2, b.where(), "buffer %s: whole overwrite (resize to len(x), copy x) -> sort -> dedup precedes the merge "
